@@ -9,6 +9,7 @@ import Lemmas.Backtrack
 import Lemmas.OptimalShape
 import Lemmas.Bytes
 import TextwrapModel.Num
+import Lemmas.Smawk
 namespace TW.C06
 
 section FirstFit
@@ -103,7 +104,28 @@ theorem optimalFitNaive_partition (m : β → Frag α) (pen : Penalties) (frs : 
 
 end OptimalFit
 
+/-! ### optimal-fit with `smawk`'s own algorithm inside the model (no contract)
+
+`wrapOptimalFit` (TextwrapModel/Smawk.lean) runs the model of `smawk::online_column_minima`
+on the model of the cost closure. `Lemmas/Smawk.lean` proves, for ANY number type and ANY
+inputs (so for a matrix that is not monotone at all), that `smawk_inner` and
+`online_column_minima` return normally with rows that point to earlier columns; hence: -/
+
+-- @audit TW.wrapOptimalFit_partition
+-- @audit TW.ownMinima_rowsShape
+
+/-- for IEEE doubles in particular: negative, fractional, huge, infinite and NaN widths -/
+-- @audit TW.C06.optimalFit_partition_float
+theorem optimalFit_partition_float (pen : Penalties) (frs : List (Frag Float)) (lws : List Float) :
+    (wrapOptimalFit (fun f => f) pen frs lws).1 = .overflow ∨
+    ∃ lines, (wrapOptimalFit (fun f => f) pen frs lws).1 = .ok lines ∧ lines.flatten = frs ∧
+      (frs ≠ [] → ∀ l ∈ lines, l ≠ []) ∧ (frs = [] → lines = [[]]) :=
+  wrapOptimalFit_partition _ pen frs lws
+
 /-! non-vacuity: the statements apply to IEEE doubles and to integers -/
+-- (a test, not a theorem: `smawk_inner` recurses by well-founded recursion, which the kernel does not unfold)
+#guard (wrapOptimalFit (fun (f : Frag Int) => f) ⟨1000, 2500, 4, 25, 25⟩
+    [⟨3, 1, 0⟩, ⟨3, 1, 0⟩, ⟨3, 1, 0⟩] [7]).2 == [0, 0, 0, 2]
 example : (wrapFirstFit (fun (f : Frag Int) => f) [⟨3, 1, 0⟩, ⟨3, 1, 0⟩, ⟨3, 1, 0⟩] [7]).map List.length = [2, 1] := by
   decide
 example : RowsShape [0, 0, 1, 1] 3 := by
